@@ -311,6 +311,9 @@ func (p *parser) mul() Expr {
 }
 
 func (p *parser) unary() Expr {
+	if t := p.peek(); t.k == "id" && (t.s == "forall" || t.s == "exists") {
+		return p.expr()
+	}
 	switch {
 	case p.accept("!"):
 		return &EUn{"!", p.unary()}
@@ -762,7 +765,7 @@ func collectCallKeys(e Expr, out map[string]bool) {
 	case *EQuant:
 		collectCallKeys(x.Body, out)
 	case *ECall:
-		if (x.Fn == "calls" || x.Fn == "arg" || x.Fn == "ncalls" || x.Fn == "ret") && len(x.Args) > 0 {
+		if (x.Fn == "calls" || x.Fn == "dcalls" || x.Fn == "arg" || x.Fn == "ncalls" || x.Fn == "ret") && len(x.Args) > 0 {
 			out[exprKey(x.Args[0])] = true
 		}
 		for _, a := range x.Args {
